@@ -15,9 +15,7 @@ let coq_DOT =
 (** val push : path -> path -> path **)
 
 let push base p =
-  if p.absolute
-  then p
-  else { absolute = base.absolute; comps = (app base.comps p.comps) }
+  { absolute = base.absolute; comps = (app base.comps p.comps) }
 
 (** val has_dot : name -> bool **)
 
@@ -104,7 +102,6 @@ let is_pn_name = function
 (** val is_pn_module : path -> bool **)
 
 let is_pn_module m =
-  (&&) (negb m.absolute)
-    (match rev m.comps with
-     | [] -> false
-     | n :: _ -> is_pn_name n)
+  match rev m.comps with
+  | [] -> false
+  | n :: _ -> is_pn_name n
